@@ -135,6 +135,40 @@ func runC07(r *ev.Run) {
 			}
 			r.Count("roundtrips:concatenated", 1)
 		}
+		// writing is repeatable: a SECOND WriteTo of the same, untouched source gives a stream that loads to the same
+		// answers (bytes are not compared: map-backed kinds may order their entries differently), and so does a
+		// second-generation stream written by the reloaded index
+		if reloaded != nil {
+			for gen, src := range []*serState{st, nil} {
+				var data2 []byte
+				var err error
+				if src != nil {
+					data2, _, _, err = serialise(st)
+				} else {
+					var buf bytes.Buffer
+					if w, ok := reloaded.(interface {
+						WriteTo(io.Writer) (int64, error)
+					}); ok {
+						_, err = w.WriteTo(&buf)
+						data2 = buf.Bytes()
+					} else {
+						continue // multi-writer kinds (hybrid) are re-written through serialise only
+					}
+				}
+				what := []string{"second WriteTo of the source", "WriteTo of the reloaded index"}[gen]
+				if err != nil {
+					rep("ser."+kind+".rewrite", what+": "+err.Error())
+					continue
+				}
+				r2 := st.fresh()
+				if _, err := r2.read(bytes.NewReader(data2)); err != nil {
+					rep("ser."+kind+".rewrite", what+" does not load: "+err.Error())
+				} else if d := diffAnswers(after, st.answer(r2.obj)); d != "" {
+					rep("ser."+kind+".rewrite", what+" loads to different answers: "+d)
+				}
+				r.Count("roundtrips:"+what, 1)
+			}
+		}
 		// continuation
 		if reloaded != nil {
 			nOps := 5 + rng.IntN(20)
